@@ -173,6 +173,40 @@ ENGINES.append({"name": "twzmon.hist", "path": "twzmon/histjobs.py", "serves_pro
                 "kind_free_text": "history generator + sequential model checker over client-boundary operation records (runtime monitoring)"})
 NOT_APPLICABLE[:] = [x for x in NOT_APPLICABLE if x["property_id"] not in CHECKS]
 
+CHECKS.update({
+    "C16": dict(
+        engine="twzmon.conc", level="exploration", design_ref="DESIGN.md 4-C16, 2.6",
+        technique="multi-threaded stress + deterministic build/call overlap by handshake + lockset (Eraser-style) monitor on the build tables + per-execution monitors per token",
+        text="2..16 threads calling one DAG with distinct nonces (own reference value each, C02-C05 monitors per execution token); a build paused "
+        "inside its describing function while other threads call a DAG / a decorated function / build; concurrent builds under a 1e-6 "
+        "switch interval; fingerprints of DAGs built concurrently equal those built alone; no access to the build tables by a thread "
+        "that does not own the build lock",
+        note="trusted: CPython threading, the handshake events of the harness; pre-emption points inside tawazi are sampled, not enumerated",
+    ),
+    "C17": dict(
+        engine="twzmon.conc", level="exploration", design_ref="DESIGN.md 4-C17",
+        technique="differential run of both flavours + gathered awaits with unique nonces + loop-liveness handshake whose time-out only triggers stack sampling of the loop thread",
+        text="same source as DAG and AsyncDAG: equal value, entered call sites and setup results; 2..100 concurrent awaits each get their own "
+        "reference value; an async-thread probe asks a sibling coroutine of the same loop for service - a blocked loop is convicted by 20 "
+        "stack samples of the loop thread inside tawazi, never by the clock alone",
+        note="trusted: asyncio; only sustained blocking of the loop is detectable (a scheduler that blocks the loop for a bounded slice per "
+        "wait still serves the handshake and is not convicted)",
+    ),
+    "C19": dict(
+        engine="twzmon.comp", level="exploration", design_ref="DESIGN.md 4-C19",
+        technique="differential runtime monitoring: composed DAG vs. reference run of the original source with the input call sites overridden; ValueError oracle; original fingerprint before/after",
+        text="random (inputs, outputs) pairs through every alias form and Ellipsis on generated DAGs: composed(values) == substituted pipeline, "
+        "executed set == what the outputs need stopping at the inputs, ValueError exactly for ambiguous alias / input depending on input / "
+        "missing required input, original unchanged (structure, value, executed set)",
+        note=TB_DIFF,
+    ),
+})
+ENGINES.append({"name": "twzmon.conc", "path": "twzmon/concjobs.py", "serves_properties": ["C16", "C17"],
+                "kind_free_text": "thread / await stress, deterministic build overlap, lockset monitor, loop-liveness handshake (runtime monitoring)"})
+ENGINES.append({"name": "twzmon.comp", "path": "twzmon/compjobs.py", "serves_properties": ["C19"],
+                "kind_free_text": "compose oracle (runtime monitoring, differential)"})
+NOT_APPLICABLE[:] = [x for x in NOT_APPLICABLE if x["property_id"] not in CHECKS]
+
 NOTES = (
     "Technique family: runtime monitoring. Compiler sanitizers / TSan / valgrind do not apply (pure Python); their Python-level "
     "analogues are used (lockset monitor, forced pre-emption, stack sampling). Exit codes: 0 held on everything explored, 1 VIOLATION, "
